@@ -38,7 +38,9 @@ func (cer *CER) Parse(m *diam.Message, localRole Role) (failedAVP *diam.AVP, err
 		return nil, err
 	}
 	if cer.InbandSecurityID != nil {
-		if v := cer.InbandSecurityID.Data.(datatype.Unsigned32); v != 0 {
+		// A vendor-flagged or otherwise foreign Inband-Security-Id is not
+		// an Unsigned32; it cannot mean "no inband security" either.
+		if v, ok := cer.InbandSecurityID.Data.(datatype.Unsigned32); !ok || v != 0 {
 			return nil, ErrNoCommonSecurity
 		}
 	}
